@@ -68,7 +68,10 @@ for (nm, cf, var) in LHNEW:
                   ("macro", "sizeof(((LHANewDecoder*)0)->code_tree)/sizeof(TreeElement)", p + "_code_tree_extent"),
                   ("macro", "sizeof(((LHANewDecoder*)0)->offset_tree)/sizeof(TreeElement)", p + "_offset_tree_extent"),
                   ("macro", "sizeof(TreeElement)", p + "_tree_element_size"),
-                  ("macro", "TREE_NODE_LEAF", p + "_TREE_NODE_LEAF")]
+                  ("macro", "TREE_NODE_LEAF", p + "_TREE_NODE_LEAF"),
+                  ("macro", "TEMP_CODE_BITS", p + "_TEMP_CODE_BITS"),
+                  ("macro", "MAX_OFFSET_CODES", p + "_MAX_OFFSET_CODES"),
+                  ("macro", "sizeof(((LHANewDecoder*)0)->temp_tree)/sizeof(TreeElement)", p + "_temp_tree_extent")]
         items.append(("dtype", var, nm))
         if nm == "lh4":
             items.append(("dtype", "lha_lh5_decoder", "lh5"))
